@@ -28,6 +28,7 @@ import (
 	"fmt"
 	"math/big"
 	"net"
+	"runtime"
 	"strconv"
 	"strings"
 	"sync"
@@ -90,6 +91,9 @@ func c13OwnerIndex(name string) int {
 
 type c13PKI struct {
 	root, inter, leaf, expLeaf, wrongLeaf, canonLeaf, selfCA, foreign *x509.Certificate
+	// a leaf for the MX host name issued by the foreign CA: the server of a domain whose TLSA records
+	// pin the OTHER hierarchy (chains J, M)
+	foreignLeaf *x509.Certificate
 	// private keys of the certificates a server can present as its own (op `attempt`)
 	keys map[*x509.Certificate]*ecdsa.PrivateKey
 }
@@ -150,11 +154,12 @@ func c13MakePKI(t *testing.T) *c13PKI {
 	year := 365 * 24 * time.Hour
 	p := &c13PKI{keys: map[*x509.Certificate]*ecdsa.PrivateKey{}}
 	rootK, interK, foreignK, selfK := c13Key(t), c13Key(t), c13Key(t), c13Key(t)
-	leafK, expK, wrongK, canonK := c13Key(t), c13Key(t), c13Key(t), c13Key(t)
+	leafK, expK, wrongK, canonK, fleafK := c13Key(t), c13Key(t), c13Key(t), c13Key(t), c13Key(t)
 	p.root = c13Sign(t, c13CA("verif root", now), nil, rootK, nil)
 	p.inter = c13Sign(t, c13CA("verif intermediate", now), p.root, interK, rootK)
 	p.foreign = c13Sign(t, c13CA("verif foreign root", now), nil, foreignK, nil)
 	p.leaf = c13Sign(t, c13Leaf("leaf", c13MX, now.Add(-year), now.Add(10*year)), p.inter, leafK, interK)
+	p.foreignLeaf = c13Sign(t, c13Leaf("leaf of the foreign ca", c13MX, now.Add(-year), now.Add(10*year)), p.foreign, fleafK, foreignK)
 	p.expLeaf = c13Sign(t, c13Leaf("expired leaf", c13MX, now.Add(-2*year), now.Add(-year)), p.inter, expK, interK)
 	wrong := c13Leaf("wrong-name leaf", "other.verif.test", now.Add(-year), now.Add(10*year))
 	// valid for the names around the MX name, not for it
@@ -167,6 +172,7 @@ func c13MakePKI(t *testing.T) *c13PKI {
 	self.ExtKeyUsage = []x509.ExtKeyUsage{x509.ExtKeyUsageServerAuth}
 	p.selfCA = c13Sign(t, self, nil, selfK, nil)
 	p.keys[p.leaf], p.keys[p.expLeaf], p.keys[p.wrongLeaf], p.keys[p.canonLeaf], p.keys[p.selfCA] = leafK, expK, wrongK, canonK, selfK
+	p.keys[p.foreignLeaf] = fleafK
 	return p
 }
 
@@ -179,6 +185,11 @@ type c13Chain struct {
 	ca       []bool
 	anchorOK []bool
 	stated   bool // one of the five chains of the property's quantifier
+	// pkix (by construction): a client that trusts the two roots (c13PKI.publicPool) verifies this
+	// chain for c13MX in the first handshake — the chain is complete, valid and issued for the name.
+	// verified: what crypto/tls then reports as ConnectionState.VerifiedChains (nil when pkix is false)
+	pkix     bool
+	verified [][]*x509.Certificate
 	// tables for the model, computed once with the real library primitives
 	caBits string
 	vBits  string
@@ -188,7 +199,19 @@ type c13Chain struct {
 }
 
 // chain kinds; the first five are the property's, the others widen the space
-var c13ChainKinds = []string{"L", "LI", "LIR", "X", "W", "S", "F", "LR", "C", "E"}
+var c13ChainKinds = []string{"L", "LI", "LIR", "X", "W", "S", "F", "LR", "C", "G", "J", "M", "E"}
+
+// the chains that pass ordinary (PKIX) verification for the MX host name at a client trusting both
+// roots
+var c13PKIXKinds = map[string]bool{"LI": true, "LIR": true, "G": true, "J": true, "M": true}
+
+// the root pool of a client with an ordinary CA store: both hierarchies are trusted
+func (p *c13PKI) publicPool() *x509.CertPool {
+	pool := x509.NewCertPool()
+	pool.AddCert(p.root)
+	pool.AddCert(p.foreign)
+	return pool
+}
 
 func c13MakeChains(t *testing.T, p *c13PKI) map[string]*c13Chain {
 	mk := func(kind string, stated bool, certs []*x509.Certificate, ca, ok []bool) *c13Chain {
@@ -210,6 +233,15 @@ func c13MakeChains(t *testing.T, p *c13PKI) map[string]*c13Chain {
 		// the leaf is issued for the canonical name of an aliased MX, and chains to the anchors:
 		// not valid for the MX host name
 		mk("C", f, []*x509.Certificate{p.canonLeaf, p.inter, p.root}, []bool{f, tr, tr}, []bool{f, f, f}),
+		// a PKIX-valid chain plus a STRAY CA certificate the leaf does not chain to — what a server
+		// sends that wants a DANE-TA record for that CA to "match": the leaf of our hierarchy with the
+		// self-signed foreign root appended,
+		mk("G", f, []*x509.Certificate{p.leaf, p.inter, p.foreign}, []bool{f, tr, tr}, []bool{f, tr, f}),
+		// the leaf of the foreign hierarchy, its root, and our intermediate appended,
+		mk("J", f, []*x509.Certificate{p.foreignLeaf, p.foreign, p.inter}, []bool{f, tr, tr}, []bool{f, tr, f}),
+		// the leaf of the foreign hierarchy (its root is in the client's store, not sent) with our
+		// intermediate appended: no presented certificate is an anchor of the leaf
+		mk("M", f, []*x509.Certificate{p.foreignLeaf, p.inter}, []bool{f, tr}, []bool{f, f}),
 		// no certificate at all (what ConnectionState holds without TLS)
 		mk("E", f, nil, nil, nil),
 	}
@@ -314,6 +346,22 @@ func c13MakeChains(t *testing.T, p *c13PKI) map[string]*c13Chain {
 			_, err := c.certs[0].Verify(x509.VerifyOptions{DNSName: c13MX, Roots: roots, Intermediates: inters})
 			if (err == nil) != c.anchorOK[j] {
 				t.Fatalf("c13 self-check: chain %s anchor %d: x509 says %v, constructed as %v", c.kind, j, err, c.anchorOK[j])
+			}
+		}
+		// ordinary verification at a client that trusts both roots, as crypto/tls does it (roots = the
+		// client's pool, intermediates = the other presented certificates, DNSName = the MX host)
+		c.pkix = c13PKIXKinds[c.kind]
+		if n > 0 {
+			inters := x509.NewCertPool()
+			for _, crt := range c.certs[1:] {
+				inters.AddCert(crt)
+			}
+			vc, err := c.certs[0].Verify(x509.VerifyOptions{DNSName: c13MX, Roots: p.publicPool(), Intermediates: inters})
+			if (err == nil) != c.pkix {
+				t.Fatalf("c13 self-check: chain %s: PKIX verification says %v, constructed as %v", c.kind, err, c.pkix)
+			}
+			if err == nil {
+				c.verified = vc
 			}
 		}
 		out[c.kind] = c
@@ -709,17 +757,34 @@ func c13CallVerify(recs []dns.TLSA, st tls.ConnectionState) (override bool, err 
 }
 
 func (w *c13World) verifyCase(out *vh.Out, recs []c13Rec, ck string, hs bool, stats bool) {
+	w.verifyCaseV(out, recs, ck, hs, false, stats)
+}
+
+// vc: the connection state carries VerifiedChains — the handshake was made WITH certificate
+// verification by a client trusting both roots and passed it (only possible for the chains with
+// pkix). What crypto/tls verified is not an input of the DANE decision: the model does not get it
+// (the `z=` token carries it for replay), the monitor's rules are the same.
+func (w *c13World) verifyCaseV(out *vh.Out, recs []c13Rec, ck string, hs, vc bool, stats bool) {
 	ch := w.chains[ck]
+	vc = vc && hs && ch.verified != nil
 	var toks []string
 	var rrs []dns.TLSA
 	for _, r := range recs {
 		toks = append(toks, w.recToken(r, ch))
 		rrs = append(rrs, w.tlsa(r, ch))
 	}
-	op := fmt.Sprintf("C13 verify z=%s %s %s | %s", ck, c13b(hs), ch.token(), strings.Join(toks, " "))
+	zk := ck
+	if vc {
+		zk += "+v"
+	}
+	op := fmt.Sprintf("C13 verify z=%s %s %s | %s", zk, c13b(hs), ch.token(), strings.Join(toks, " "))
 	op = strings.TrimRight(op, " ")
 
-	override, err, panicked := c13CallVerify(rrs, w.connState(hs, ch))
+	st := w.connState(hs, ch)
+	if vc {
+		st.VerifiedChains = ch.verified
+	}
+	override, err, panicked := c13CallVerify(rrs, st)
 	obs := "panic"
 	if !panicked {
 		obs = "ret " + c13b(override) + " " + c13ErrKind(err)
@@ -760,6 +825,9 @@ func (w *c13World) verifyCase(out *vh.Out, recs []c13Rec, ck string, hs bool, st
 		}
 		out.Stat(fmt.Sprintf("verify/records:%d", n))
 		out.Stat("verify/chain:" + ck)
+		if hs {
+			out.Stat("verify/verified-chains:" + c13b(vc))
+		}
 		out.Stat("verify/path:" + tr.path(hs))
 		out.Stat("verify/outcome:" + obs)
 		for _, r := range recs {
@@ -785,12 +853,15 @@ func (w *c13World) verifyCase(out *vh.Out, recs []c13Rec, ck string, hs bool, st
 	}
 }
 
-func c13ParseVerify(op string) (ck string, hs bool, recs []c13Rec, err error) {
+func c13ParseVerify(op string) (ck string, hs, vc bool, recs []c13Rec, err error) {
 	toks := strings.Fields(op)
 	if len(toks) < 5 || toks[0] != "C13" || toks[1] != "verify" || !strings.HasPrefix(toks[2], "z=") {
-		return "", false, nil, fmt.Errorf("bad verify op %q", op)
+		return "", false, false, nil, fmt.Errorf("bad verify op %q", op)
 	}
 	ck = toks[2][2:]
+	if strings.HasSuffix(ck, "+v") {
+		ck, vc = strings.TrimSuffix(ck, "+v"), true
+	}
 	hs = toks[3] == "1"
 	bar := false
 	for _, tk := range toks[4:] {
@@ -803,7 +874,7 @@ func c13ParseVerify(op string) (ck string, hs bool, recs []c13Rec, err error) {
 		}
 		r, e := c13ParseRec(tk)
 		if e != nil {
-			return "", false, nil, e
+			return "", false, false, nil, e
 		}
 		recs = append(recs, r)
 	}
@@ -835,11 +906,11 @@ func TestVerifC13Verify(t *testing.T) {
 			if !strings.HasPrefix(op, "C13 verify ") {
 				continue
 			}
-			ck, hs, recs, err := c13ParseVerify(op)
+			ck, hs, vc, recs, err := c13ParseVerify(op)
 			if err != nil || w.chains[ck] == nil {
 				t.Fatalf("cannot replay %q: %v", op, err)
 			}
-			w.verifyCase(out, recs, ck, hs, true)
+			w.verifyCaseV(out, recs, ck, hs, vc, true)
 		}
 		return
 	}
@@ -856,6 +927,13 @@ func TestVerifC13Verify(t *testing.T) {
 			for _, a := range types {
 				w.verifyCase(out, []c13Rec{a}, ck, hs, true)
 			}
+			// the same on a state that carries VerifiedChains (first handshake, verification passed)
+			if hs && w.chains[ck].verified != nil {
+				w.verifyCaseV(out, nil, ck, hs, true, true)
+				for _, a := range types {
+					w.verifyCaseV(out, []c13Rec{a}, ck, hs, true, true)
+				}
+			}
 		}
 	}
 	out.Note(fmt.Sprintf("verify: exhaustive sizes 0-1 over %d record types x %d chains x handshake", len(types), len(c13ChainKinds)))
@@ -871,7 +949,7 @@ func TestVerifC13Verify(t *testing.T) {
 					continue
 				}
 				a.owner = uint8(o)
-				w.verifyCase(out, []c13Rec{a}, ck, true, true)
+				w.verifyCaseV(out, []c13Rec{a}, ck, true, (o+cnt1b)%2 == 0, true)
 				cnt1b++
 			}
 		}
@@ -900,6 +978,38 @@ func TestVerifC13Verify(t *testing.T) {
 	}
 	out.Note(fmt.Sprintf("verify: usable record types with malformed association data: %d cases", cnt1c))
 
+	// (1d) a stray CA certificate in the presented chain: the chain passes ordinary verification (the
+	// state carries VerifiedChains, or not: the InsecureSkipVerify retry) and ALSO contains a CA
+	// certificate the leaf does not chain to. A DANE-TA record for that certificate matches a
+	// presented CA certificate — and must not authenticate; a record for the CA that did issue the
+	// leaf must. Every usable DANE-TA type x the CA certificates of both hierarchies, alone, in pairs,
+	// and next to a non-matching DANE-EE record.
+	cnt1d := 0
+	var taTypes []c13Rec
+	for _, s := range []uint8{0, 1} {
+		for _, m := range []uint8{0, 1, 2} {
+			for _, tg := range []byte{'I', 'R', 'F'} {
+				taTypes = append(taTypes, c13Rec{usage: 2, sel: s, mt: m, target: tg, dsel: s, dmt: m})
+			}
+		}
+	}
+	eeMiss := c13Rec{usage: 3, sel: 1, mt: 1, target: 'N', dsel: 1, dmt: 1}
+	for _, ck := range []string{"G", "J", "M", "LIR", "LI", "F", "LR"} {
+		for _, vc := range []bool{true, false} {
+			if vc && w.chains[ck].verified == nil {
+				continue
+			}
+			for i, a := range taTypes {
+				w.verifyCaseV(out, []c13Rec{a}, ck, true, vc, true)
+				w.verifyCaseV(out, c13Shuffle(rng, []c13Rec{a, eeMiss}), ck, true, vc, true)
+				b := taTypes[(i+1+rng.Intn(len(taTypes)-1))%len(taTypes)]
+				w.verifyCaseV(out, []c13Rec{a, b}, ck, true, vc, true)
+				cnt1d += 3
+			}
+		}
+	}
+	out.Note(fmt.Sprintf("verify: stray-anchor chains x usable DANE-TA types, with / without VerifiedChains: %d cases", cnt1d))
+
 	// (2) every multiset of size 2 over the stated record types, completed handshake (without a
 	// handshake the verdict only depends on emptiness: sampled below): quick on the full chain,
 	// thorough on all nine chains
@@ -922,7 +1032,7 @@ func TestVerifC13Verify(t *testing.T) {
 				}
 			}
 			for _, ck := range size2 {
-				w.verifyCase(out, pair, ck, true, true)
+				w.verifyCaseV(out, pair, ck, true, rng.Bool(), true)
 				cnt++
 			}
 		}
@@ -994,7 +1104,7 @@ func TestVerifC13Verify(t *testing.T) {
 		if !hs && rng.Chance(60) {
 			ck = "E"
 		}
-		w.verifyCase(out, c13Shuffle(rng, recs), ck, hs, true)
+		w.verifyCaseV(out, c13Shuffle(rng, recs), ck, hs, rng.Bool(), true)
 	}
 }
 
@@ -1034,6 +1144,7 @@ var c13FutErrs = []struct {
 	{"neterr-timeout", "ot", &net.DNSError{Err: "i/o timeout", Name: c13MX, IsTimeout: true}},
 	{"io-error", "ot", errors.New("read udp 127.0.0.1:53: connection refused")},
 	{"ctx-deadline", "ot", context.DeadlineExceeded},
+	{"ctx-canceled", "ot", context.Canceled},
 	{"no-address", "na", errors.New("no address associated with the host")},
 }
 
@@ -1834,6 +1945,203 @@ func c13GoodZones(all []c13Zone) []c13Zone {
 	return good
 }
 
+// ---------------------------------------------------------------- a TLSA discovery that crashes
+//
+// PrepareConn runs discoverTLSA in a goroutine of its own and recovers a panic there. Nothing is
+// known about the TLSA records of the MX after a crash, so the connection must not be used: CheckConn
+// has to end in a temporary refusal, as for any other failed discovery (the future is never
+// completed; the wait ends with the context). c13Crash injects the panic:
+//
+//	E     the resolver has an empty server list: the lookup code dereferences the missing response
+//	      (first lookup)
+//	L     the output of the policy's debug log panics: a crash where discovery reports its decision,
+//	      after the lookups have succeeded
+//	D<k>  the context handed to PrepareConn panics in its k-th Deadline() call: a crash inside the
+//	      resolver library (miekg dns.Client reads the deadline for every exchange), k-th step
+//
+// Whether the injection fired is observed (L, D) or known by construction (E) and shipped to the
+// model as a primitive result.
+type c13Crash struct {
+	kind  byte // 0 nothing injected
+	at    int
+	mu    sync.Mutex
+	calls int
+	fired bool
+}
+
+func c13ParseCrash(code string) (*c13Crash, error) {
+	switch {
+	case code == "":
+		return &c13Crash{}, nil
+	case code == "E" || code == "L":
+		return &c13Crash{kind: code[0]}, nil
+	case len(code) >= 2 && code[0] == 'D':
+		k, err := strconv.Atoi(code[1:])
+		if err == nil && k >= 1 {
+			return &c13Crash{kind: 'D', at: k}, nil
+		}
+	}
+	return nil, fmt.Errorf("bad crash injection %q", code)
+}
+
+func (c *c13Crash) didFire() bool {
+	c.mu.Lock()
+	defer c.mu.Unlock()
+	return c.fired
+}
+
+// log.Output
+func (c *c13Crash) Write(stamp time.Time, debug bool, msg string) {
+	if c.kind != 'L' {
+		return
+	}
+	c.mu.Lock()
+	c.fired = true
+	c.mu.Unlock()
+	panic("c13: injected crash of the log output")
+}
+
+func (c *c13Crash) Close() error { return nil }
+
+type c13CrashCtx struct {
+	context.Context
+	c *c13Crash
+}
+
+func (x c13CrashCtx) Deadline() (time.Time, bool) {
+	x.c.mu.Lock()
+	x.c.calls++
+	hit := x.c.calls == x.c.at
+	if hit {
+		x.c.fired = true
+	}
+	x.c.mu.Unlock()
+	if hit {
+		panic("c13: injected crash inside the resolver library")
+	}
+	return x.Context.Deadline()
+}
+
+// the context PrepareConn is handed
+func (c *c13Crash) ctx(ctx context.Context) context.Context {
+	if c.kind == 'D' {
+		return c13CrashCtx{ctx, c}
+	}
+	return ctx
+}
+
+// the resolver the policy works with
+func (c *c13Crash) resolver(ext *dns.ExtResolver) *dns.ExtResolver {
+	if c.kind != 'E' || ext == nil {
+		return ext
+	}
+	e := *ext
+	cfg := *ext.Cfg
+	cfg.Servers = nil
+	e.Cfg = &cfg
+	c.mu.Lock()
+	c.fired = true // by construction: the first lookup of discovery has no response to read
+	c.mu.Unlock()
+	return &e
+}
+
+// the logger of the policy
+func (c *c13Crash) logger(name string, quiet bool) log.Logger {
+	if c.kind == 'L' {
+		return log.Logger{Name: name, Debug: true, Out: c}
+	}
+	if quiet {
+		return log.Logger{Name: name, Out: log.NopOutput{}}
+	}
+	return log.Logger{Name: name}
+}
+
+// c13LookupGone: is no goroutine started by PrepareConn left (the discovery has returned or crashed
+// and every deferred handler of it has run)?
+var (
+	c13StackMu  sync.Mutex
+	c13StackBuf = make([]byte, 4<<20)
+)
+
+func c13LookupGone() bool {
+	c13StackMu.Lock()
+	defer c13StackMu.Unlock()
+	n := runtime.Stack(c13StackBuf, true)
+	return !bytes.Contains(c13StackBuf[:n], []byte("created by github.com/foxcpp/maddy/internal/target/remote.(*daneDelivery).PrepareConn"))
+}
+
+// is the future of the delivery complete? (Future.GetContext looks at the value before it looks at
+// the context: with a context that is already over it answers at once)
+func c13FutureComplete(d *daneDelivery) (complete bool) {
+	defer func() {
+		if r := recover(); r != nil {
+			complete = true // no future at all: let CheckConn meet that itself
+		}
+	}()
+	ctx, cancel := context.WithCancel(context.Background())
+	cancel()
+	_, err := d.tlsaFut.GetContext(ctx)
+	return !errors.Is(err, context.Canceled)
+}
+
+// c13SettleFuture waits until the state of the delivery's future is final and reports it: complete
+// (a discovery — or whoever — has set it), or empty with no lookup goroutine left, so that nobody
+// will ever complete it. A crashed discovery is told from a slow one without looking at a clock.
+func c13SettleFuture(d *daneDelivery) (complete bool) {
+	start := time.Now()
+	lastDump := start
+	for {
+		if c13FutureComplete(d) {
+			return true
+		}
+		// pacing only (no verdict depends on these times): the goroutine dump stops the world — the
+		// first one after half a millisecond (a discovery that returns has usually done so by then),
+		// then one per 300 microseconds; spin for the first milliseconds (a sleep is much longer than a
+		// lookup), sleep afterwards
+		now := time.Now()
+		if now.Sub(start) > 500*time.Microsecond && now.Sub(lastDump) > 300*time.Microsecond {
+			if c13LookupGone() {
+				return c13FutureComplete(d)
+			}
+			lastDump = time.Now()
+			if now.Sub(start) > 60*time.Second {
+				return false
+			}
+		}
+		if now.Sub(start) < 5*time.Millisecond {
+			runtime.Gosched()
+		} else {
+			time.Sleep(50 * time.Microsecond)
+		}
+	}
+}
+
+// the recover handler of PrepareConn logs the panic with a stack trace through the default logger:
+// keep that out of the test output
+func c13SilenceDefaultLog() func() {
+	old := log.DefaultLogger.Out
+	log.DefaultLogger.Out = log.NopOutput{}
+	return func() { log.DefaultLogger.Out = old }
+}
+
+// CheckConn after a discovery that may have crashed. If the future is empty and no lookup goroutine
+// is left, nobody will ever complete it, and the wait in CheckConn can only end with the delivery's
+// context — which is over, then, when CheckConn is called. No clock is involved.
+func c13CheckConnAfter(d *daneDelivery, st tls.ConnectionState) (lvl module.TLSLevel, err error, panicked bool) {
+	defer func() {
+		if r := recover(); r != nil {
+			panicked = true
+		}
+	}()
+	ctx, cancel := context.WithTimeout(context.Background(), 30*time.Second)
+	defer cancel()
+	if d.c.extResolver != nil && !c13SettleFuture(d) {
+		cancel()
+	}
+	lvl, err = d.CheckConn(ctx, module.MXNone, module.TLSEncrypted, "verif.test", c13MX, st)
+	return
+}
+
 // ---------------------------------------------------------------- PrepareConn + CheckConn against a DNS server
 
 var (
@@ -1842,6 +2150,16 @@ var (
 )
 
 func (w *c13World) connCase(t *testing.T, out *vh.Out, z c13Zone, ck string, hs bool) {
+	w.connCaseX(t, out, z, ck, hs, "")
+}
+
+// inj: the crash injected into the discovery (c13Crash; "" = none, op `conn`; else op `cconn`, which
+// carries whether the injection fired)
+func (w *c13World) connCaseX(t *testing.T, out *vh.Out, z c13Zone, ck string, hs bool, inj string) {
+	cr, cerr := c13ParseCrash(inj)
+	if cerr != nil {
+		t.Fatal(cerr)
+	}
 	ch := w.chains[ck]
 	d := w.dns
 	d.set(w.script(z, ch))
@@ -1851,18 +2169,38 @@ func (w *c13World) connCase(t *testing.T, out *vh.Out, z c13Zone, ck string, hs 
 	// One policy-delivery object serves every MX candidate (and recipient domain) of a message:
 	// keep it for a few consecutive cases, as the remote target does, so that state left over
 	// from an earlier PrepareConn/CheckConn would show.
-	if c13SharedDD == nil || c13SharedDDUses >= 3 {
-		c13SharedDD = &daneDelivery{c: &danePolicy{extResolver: d.ext, log: log.Logger{Name: "remote/dane"}}}
-		c13SharedDDUses = 0
+	var dd *daneDelivery
+	if inj != "" {
+		// a delivery object of its own: the future a crashed discovery leaves empty stays out of the
+		// cases that follow
+		dd = &daneDelivery{c: &danePolicy{extResolver: cr.resolver(d.ext), log: cr.logger("remote/dane", false)}}
+	} else {
+		if c13SharedDD == nil || c13SharedDDUses >= 3 {
+			c13SharedDD = &daneDelivery{c: &danePolicy{extResolver: d.ext, log: log.Logger{Name: "remote/dane"}}}
+			c13SharedDDUses = 0
+		}
+		c13SharedDDUses++
+		dd = c13SharedDD
+		dd.c.extResolver = d.ext
+		out.Stat(fmt.Sprintf("conn/delivery-reuse:%d", c13SharedDDUses))
 	}
-	c13SharedDDUses++
-	dd := c13SharedDD
-	dd.c.extResolver = d.ext
-	out.Stat(fmt.Sprintf("conn/delivery-reuse:%d", c13SharedDDUses))
 	ctx, cancel := context.WithTimeout(context.Background(), 30*time.Second)
 	defer cancel()
-	dd.PrepareConn(ctx, c13MX)
-	lvl, err, panicked := c13CallCheckConn(dd, w.connState(hs, ch))
+	dd.PrepareConn(cr.ctx(ctx), c13MX)
+	var (
+		lvl      module.TLSLevel
+		err      error
+		panicked bool
+	)
+	fired := false
+	if inj == "" {
+		lvl, err, panicked = c13CallCheckConn(dd, w.connState(hs, ch))
+	} else {
+		lvl, err, panicked = c13CheckConnAfter(dd, w.connState(hs, ch))
+		fired = cr.didFire()
+		op = fmt.Sprintf("C13 cconn z=%s;%s;%s %s %s %s %s %s %s %s", z.code(), ck, inj, c13b(fired), ock, ocn, trTok, tmTok, c13b(hs), ch.token())
+		out.Stat("cconn/injection:" + inj[:1] + " fired:" + c13b(fired))
+	}
 	obs := "panic"
 	if !panicked {
 		obs = "ret " + c13Level(lvl) + " " + c13ErrKind(err)
@@ -1872,6 +2210,12 @@ func (w *c13World) connCase(t *testing.T, out *vh.Out, z c13Zone, ck string, hs 
 	// ---- monitor: from the zone description alone
 	zt := c13ZoneTruthOf(z)
 	lookupFailed := zt.addrFails || zt.lookupFails
+	if fired {
+		// a crashed discovery is a failed discovery, in every world
+		w.connMonitor(out, op, true, true, false, nil, ch, hs, lvl, err, panicked)
+		out.Stat("cconn/outcome:" + obs)
+		return
+	}
 	var recs []c13Rec
 	haveRecs := false
 	if !lookupFailed && zt.hostSecure {
@@ -1902,19 +2246,25 @@ func TestVerifC13Conn(t *testing.T) {
 	w.dns = c13StartDNS(t)
 	defer w.dns.Close()
 
+	defer c13SilenceDefaultLog()()
 	if rp := vh.Replay(); rp != nil {
 		for _, op := range rp {
-			if !strings.HasPrefix(op, "C13 conn ") {
+			isConn, isCrash := strings.HasPrefix(op, "C13 conn "), strings.HasPrefix(op, "C13 cconn ")
+			if !isConn && !isCrash {
 				continue
 			}
 			toks := strings.Fields(op)
 			code := strings.TrimPrefix(toks[2], "z=")
 			parts := strings.Split(code, ";")
 			z, err := c13ParseZone(code)
-			if err != nil || len(parts) != 4 || w.chains[parts[3]] == nil {
+			if err != nil || (isConn && len(parts) != 4) || (isCrash && len(parts) != 5) || w.chains[parts[3]] == nil {
 				t.Fatalf("cannot replay %q: %v", op, err)
 			}
-			w.connCase(t, out, z, parts[3], toks[len(toks)-2] == "1")
+			inj := ""
+			if isCrash {
+				inj = parts[4]
+			}
+			w.connCaseX(t, out, z, parts[3], toks[len(toks)-2] == "1", inj)
 		}
 		return
 	}
@@ -1943,6 +2293,28 @@ func TestVerifC13Conn(t *testing.T) {
 		w.fillZoneRecs(rng, &z)
 		ck := c13ChainKinds[rng.Intn(len(c13ChainKinds)-1)]
 		w.connCase(t, out, z, ck, rng.Chance(90))
+	}
+	// the discovery crashes: empty server list, panicking log output (after the lookups), a panic
+	// inside the resolver library at the k-th step — in the worlds where records would be found (the
+	// patched-in "no records, no error" then accepts a connection the RRset forbids), and in any
+	crashes := []string{"E", "L", "D1", "D2", "D3", "D4", "D5", "D6", "D7", "D8", "D9", "D12"}
+	n = vh.N(4000) / 40
+	for i := 0; i < n; i++ {
+		z := good[rng.Intn(len(good))]
+		if rng.Chance(25) {
+			z = all[rng.Intn(len(all))]
+		}
+		w.fillZoneRecs(rng, &z)
+		ck := c13ChainKinds[rng.Intn(len(c13ChainKinds))]
+		hs := ck != "E" && rng.Chance(70)
+		if !hs && rng.Chance(50) {
+			ck = "E"
+		}
+		inj := crashes[i%len(crashes)]
+		if i%3 == 0 {
+			inj = crashes[i/3%2]
+		}
+		w.connCaseX(t, out, z, ck, hs, inj)
 	}
 }
 
@@ -2332,14 +2704,25 @@ func (w *c13World) netCase(t *testing.T, out *vh.Out, env *c13NetEnv, n c13Net, 
 		}
 		out.Stat("res/outcome:" + strings.Join(strings.Fields(obs)[:min(2, len(strings.Fields(obs)))], " "))
 	}
-	if !doConn || len(srvs) == 0 {
+	if !doConn {
 		return
 	}
 
-	op := fmt.Sprintf("C13 rconn z=%s %s %s %s", n.code(), c13b(n.hs), ch.token(), srvTok)
+	op := strings.TrimRight(fmt.Sprintf("C13 rconn z=%s %s %s %s", n.code(), c13b(n.hs), ch.token(), srvTok), " ")
 	dd := &daneDelivery{c: &danePolicy{extResolver: &ext, log: log.Logger{Name: "remote/dane"}}}
 	dd.PrepareConn(ctx, c13MX)
-	lvl, err, panicked := c13CallCheckConn(dd, w.connState(n.hs, ch))
+	var (
+		lvl      module.TLSLevel
+		err      error
+		panicked bool
+	)
+	if len(srvs) == 0 {
+		// no server configured: the discovery goroutine dereferences a nil response and dies; the
+		// future is never completed, the wait ends with the delivery's context
+		lvl, err, panicked = c13CheckConnAfter(dd, w.connState(n.hs, ch))
+	} else {
+		lvl, err, panicked = c13CallCheckConn(dd, w.connState(n.hs, ch))
+	}
 	obs := "panic"
 	if !panicked {
 		obs = "ret " + c13Level(lvl) + " " + c13ErrKind(err)
@@ -2354,6 +2737,11 @@ func (w *c13World) netCase(t *testing.T, out *vh.Out, env *c13NetEnv, n c13Net, 
 		return
 	}
 	if !inSpace {
+		return
+	}
+	if len(srvs) == 0 {
+		out.Stat("rconn/monitor:discovery-crashed")
+		w.connMonitor(out, op, true, true, false, nil, ch, n.hs, lvl, err, false)
 		return
 	}
 
@@ -2519,6 +2907,7 @@ var (
 func TestVerifC13Resolver(t *testing.T) {
 	out := vh.Open("c13_res")
 	defer out.Close()
+	defer c13SilenceDefaultLog()()
 	w := c13NewWorld(t)
 	env := c13StartNet(t)
 	defer env.Close()
@@ -2565,8 +2954,14 @@ func TestVerifC13Resolver(t *testing.T) {
 		return ck, hs
 	}
 
-	// (0) no server configured: every lookup dereferences a nil response
-	w.netCase(t, out, env, c13Net{zA: zone(good), zB: zone(good), pA: pers(c13PersHonest), pB: pers(c13PersHonest), ck: "LIR", hs: true}, true, false)
+	// (0) no server configured: every lookup dereferences a nil response; PrepareConn + CheckConn:
+	// the discovery goroutine crashes, the connection is refused (temporarily) whatever its TLS state
+	for i, c := range []struct {
+		ck string
+		hs bool
+	}{{"LIR", true}, {"L", true}, {"E", false}, {"LIR", false}, {"W", true}, {"S", true}, {"G", true}} {
+		w.netCase(t, out, env, c13Net{zA: zone(good), zB: zone(good), pA: pers(c13PersHonest), pB: pers(c13PersHonest), ck: c.ck, hs: c.hs}, i == 0, true)
+	}
 
 	// (1) one server, answers that do not depend on the transport — every zone shape in turn behind
 	// the non-loopback address (half of them with AD forged on), the loopback ones on the zones
@@ -2807,6 +3202,9 @@ type c13Spy struct {
 	st     tls.ConnectionState
 	lvl    module.TLSLevel
 	mx     string
+	// before: run when CheckConn is reached, ahead of the DANE policy's CheckConn (crash cases: wait
+	// for the discovery goroutine to be gone, then end the delivery's context)
+	before func()
 }
 
 func (s *c13Spy) PrepareDomain(ctx context.Context, domain string) {}
@@ -2818,6 +3216,9 @@ func (s *c13Spy) CheckMX(ctx context.Context, mxLevel module.MXLevel, domain, mx
 
 func (s *c13Spy) CheckConn(ctx context.Context, mxLevel module.MXLevel, tlsLevel module.TLSLevel, domain, mx string, st tls.ConnectionState) (module.TLSLevel, error) {
 	s.called, s.st, s.lvl, s.mx = true, st, tlsLevel, mx
+	if s.before != nil {
+		s.before()
+	}
 	return module.TLSNone, nil
 }
 
@@ -2828,11 +3229,12 @@ var c13HostSpellings = []string{"mx.verif.test.", "mx.verif.test", "MX.Verif.Tes
 //
 //	modes: the server's behaviour on the 1st, 2nd, 3rd connection (c13SMTP)
 //	pool:  p the client trusts no CA (private-CA world: the first handshake fails verification),
-//	       t the client trusts the root of the chains
+//	       t the client trusts the roots of both hierarchies (an ordinary CA store)
 //	base:  d rd.rt.tlsConfig as maddy builds it (no ServerName), o it carries ServerName =
 //	       c13OtherName, n there is no TLS configuration (nil)
 //	host:  index into c13HostSpellings
 //	hr:    the DANE policy has a resolver
+//	crash: the TLSA discovery PrepareConn starts crashes (c13Crash: E or L; "" = no injection)
 type c13Att struct {
 	zone  c13Zone
 	ck    string
@@ -2841,14 +3243,23 @@ type c13Att struct {
 	base  byte
 	host  int
 	hr    bool
+	crash string
 }
 
 func (a c13Att) code() string {
-	return fmt.Sprintf("%s;%s;%s;%c;%c;%d", a.zone.code(), a.ck, a.modes, a.pool, a.base, a.host)
+	s := fmt.Sprintf("%s;%s;%s;%c;%c;%d", a.zone.code(), a.ck, a.modes, a.pool, a.base, a.host)
+	if a.crash != "" {
+		s += ";" + a.crash
+	}
+	return s
 }
 
 func c13ParseAtt(code string, hr bool) (c13Att, error) {
 	p := strings.Split(code, ";")
+	crash := ""
+	if len(p) == 9 && (p[8] == "E" || p[8] == "L") {
+		crash, p = p[8], p[:8]
+	}
 	if len(p) != 8 || len(p[4]) != 3 || len(p[5]) != 1 || len(p[6]) != 1 {
 		return c13Att{}, fmt.Errorf("bad attempt code %q", code)
 	}
@@ -2865,7 +3276,7 @@ func c13ParseAtt(code string, hr bool) (c13Att, error) {
 			return c13Att{}, fmt.Errorf("bad attempt code %q", code)
 		}
 	}
-	return c13Att{zone: z, ck: p[3], modes: p[4], pool: p[5][0], base: p[6][0], host: h, hr: hr}, nil
+	return c13Att{zone: z, ck: p[3], modes: p[4], pool: p[5][0], base: p[6][0], host: h, hr: hr, crash: crash}, nil
 }
 
 var c13QuietLog = log.Logger{Out: log.NopOutput{}, Name: "c13"}
@@ -2890,14 +3301,12 @@ func (w *c13World) tlsCert(ch *c13Chain) tls.Certificate {
 	return tls.Certificate{Certificate: der, PrivateKey: w.pki.keys[ch.certs[0]], Leaf: ch.certs[0]}
 }
 
-func c13CallAttempt(rd *remoteDelivery, conn *mxConn, host string) (err error, panicked bool) {
+func c13CallAttempt(ctx context.Context, rd *remoteDelivery, conn *mxConn, host string) (err error, panicked bool) {
 	defer func() {
 		if r := recover(); r != nil {
 			panicked = true
 		}
 	}()
-	ctx, cancel := context.WithTimeout(context.Background(), 2*time.Minute)
-	defer cancel()
 	err = rd.attemptMX(ctx, conn, &net.MX{Host: host, Pref: 10})
 	return
 }
@@ -2957,7 +3366,7 @@ func (w *c13World) attemptCase(out c13Sink, env *c13AttEnv, a c13Att) {
 
 	pool := x509.NewCertPool()
 	if a.pool == 't' {
-		pool.AddCert(w.pki.root)
+		pool = w.pki.publicPool()
 	}
 	var base *tls.Config
 	baseTok := "-"
@@ -2974,7 +3383,10 @@ func (w *c13World) attemptCase(out c13Sink, env *c13AttEnv, a c13Att) {
 	// the X.509 tables for the three reference identifiers and crypto/tls' own verdict for the two
 	// names a configuration can carry
 	chainN := fmt.Sprintf("%s:%s:%s:%s%s", ch.token(), ch.vBitsNone, ch.vBitsOther, c13b(c13PKIX(ch, pool, host)), c13b(c13PKIX(ch, pool, c13OtherName)))
-	op := fmt.Sprintf("C13 attempt z=%s %s %s %s %s %s %s %s %s", a.code(), baseTok, strings.Join(atts, " "), c13b(a.hr), ock, ocn, trTok, tmTok, chainN)
+	cr, cerr := c13ParseCrash(a.crash)
+	if cerr != nil {
+		panic(cerr)
+	}
 
 	srv.arm(a.modes, w.tlsCert(ch))
 	addr := srv.ln.Addr().String()
@@ -2987,15 +3399,27 @@ func (w *c13World) attemptCase(out c13Sink, env *c13AttEnv, a c13Att) {
 		tlsConfig: base,
 		Log:       c13QuietLog,
 	}
+	ctx, cancel := context.WithTimeout(context.Background(), 2*time.Minute)
+	defer cancel()
 	spy := &c13Spy{}
-	pol := &danePolicy{log: c13QuietLog}
+	pol := &danePolicy{log: cr.logger("c13", true)}
 	if a.hr {
-		pol.extResolver = env.dns.ext
+		pol.extResolver = cr.resolver(env.dns.ext)
+	}
+	dd := &daneDelivery{c: pol}
+	if a.crash != "" {
+		// the discovery goroutine is gone by the time the policies are asked; when it crashed the
+		// future stays empty and the wait in CheckConn ends with the delivery's context
+		spy.before = func() {
+			if !c13SettleFuture(dd) {
+				cancel()
+			}
+		}
 	}
 	rd := &remoteDelivery{
 		rt:       tgt,
 		Log:      c13QuietLog,
-		policies: []module.DeliveryMXAuthPolicy{spy, &daneDelivery{c: pol}},
+		policies: []module.DeliveryMXAuthPolicy{spy, dd},
 	}
 	conn := &mxConn{C: smtpconn.New(), domain: "verif.test", reuseLimit: 1, lastUseAt: time.Now()}
 	conn.Dialer = tgt.dialer
@@ -3003,8 +3427,14 @@ func (w *c13World) attemptCase(out c13Sink, env *c13AttEnv, a c13Att) {
 	conn.Hostname = tgt.hostname
 	conn.AddrInSMTPMsg = true
 
-	err, panicked := c13CallAttempt(rd, conn, host)
+	err, panicked := c13CallAttempt(ctx, rd, conn, host)
 	lvl := conn.tlsLevel
+	fired := cr.didFire() && a.hr
+	op := fmt.Sprintf("C13 attempt z=%s %s %s %s %s %s %s %s %s", a.code(), baseTok, strings.Join(atts, " "), c13b(a.hr), ock, ocn, trTok, tmTok, chainN)
+	if a.crash != "" {
+		op += " c" + c13b(fired)
+		out.Stat("attempt/injection:" + a.crash + " fired:" + c13b(fired))
+	}
 	if conn.C != nil && conn.Client() != nil {
 		if panicked {
 			_ = conn.DirectClose() // no QUIT on a connection in an unknown state
@@ -3024,7 +3454,8 @@ func (w *c13World) attemptCase(out c13Sink, env *c13AttEnv, a c13Att) {
 		case strings.EqualFold(spy.st.ServerName, strings.TrimSuffix(host, ".")):
 			name = "H"
 		}
-		st = fmt.Sprintf("%s:%s:%s", c13b(spy.st.HandshakeComplete), name, c13TLSLevel(spy.lvl))
+		// last field: does the state carry VerifiedChains (the handshake passed crypto/tls' own verification)
+		st = fmt.Sprintf("%s:%s:%s:%s", c13b(spy.st.HandshakeComplete), name, c13TLSLevel(spy.lvl), c13b(len(spy.st.VerifiedChains) != 0))
 	}
 	var obs string
 	switch {
@@ -3072,7 +3503,7 @@ func (w *c13World) attemptCase(out c13Sink, env *c13AttEnv, a c13Att) {
 	tr := w.truth(recs, ch)
 	// X.509 alone authenticates: the client trusts the root, the chain is complete and valid for
 	// the MX host name, and the one handshake that was made completed
-	pkix := a.base != 'n' && a.pool == 't' && (a.ck == "LI" || a.ck == "LIR") && len(evs) == 1 && hs
+	pkix := a.base != 'n' && a.pool == 't' && ch.pkix && len(evs) == 1 && hs
 	switch {
 	case !spy.called:
 		// connect() gave the MX up: nothing was decided
@@ -3081,7 +3512,9 @@ func (w *c13World) attemptCase(out c13Sink, env *c13AttEnv, a c13Att) {
 		if err != nil || (lvl == module.TLSAuthenticated && !pkix) {
 			out.Violation("C13/conn-no-resolver-not-neutral", op, detail)
 		}
-	case lookupFailed:
+	case lookupFailed || fired:
+		// fails closed: a discovery that failed — or crashed — is a temporary refusal of the MX,
+		// whatever the TLS state of the connection
 		if err == nil || !exterrors.IsTemporary(err) {
 			out.Violation("C13/lookup-error-not-temporary-refusal", op, detail)
 		}
@@ -3145,6 +3578,7 @@ func c13ConnsString(evs []c13SMTPConn) string {
 func TestVerifC13Attempt(t *testing.T) {
 	out := vh.Open("c13_attempt")
 	defer out.Close()
+	defer c13SilenceDefaultLog()()
 	w := c13NewWorld(t)
 	// the cases are independent of each other: they run on a few workers, each with its own DNS and
 	// SMTP server, and are written out in case order
@@ -3160,32 +3594,44 @@ func TestVerifC13Attempt(t *testing.T) {
 	runAll := func() {
 		bufs := make([]c13Buf, len(cases))
 		var wg sync.WaitGroup
+		// the cases with a crashing discovery wait for "no lookup goroutine left": they run one at a
+		// time, after the others
+		var par, seq []int
+		for i, a := range cases {
+			if a.crash != "" {
+				seq = append(seq, i)
+			} else {
+				par = append(par, i)
+			}
+		}
 		for k := range envs {
 			wg.Add(1)
 			go func(k int) {
 				defer wg.Done()
-				for i := k; i < len(cases); i += len(envs) {
-					w.attemptCase(&bufs[i], envs[k], cases[i])
+				for j := k; j < len(par); j += len(envs) {
+					w.attemptCase(&bufs[par[j]], envs[k], cases[par[j]])
 				}
 			}(k)
 		}
 		wg.Wait()
+		for _, i := range seq {
+			w.attemptCase(&bufs[i], envs[0], cases[i])
+		}
 		for i := range bufs {
 			bufs[i].flush(out)
 		}
 	}
 
-	// self-check of the monitor's X.509 ground truth: with the root trusted exactly the complete,
-	// valid, right-name chains pass crypto/tls' verification for the MX host name (every spelling);
-	// with no CA trusted none does
-	trusted, none := x509.NewCertPool(), x509.NewCertPool()
-	trusted.AddCert(w.pki.root)
+	// self-check of the monitor's X.509 ground truth: with the roots trusted exactly the complete,
+	// valid, right-name chains (c13Chain.pkix) pass crypto/tls' verification for the MX host name
+	// (every spelling); with no CA trusted none does
+	trusted, none := w.pki.publicPool(), x509.NewCertPool()
 	for _, ck := range c13ChainKinds {
 		if ck == "E" {
 			continue
 		}
 		for _, h := range c13HostSpellings {
-			if got, want := c13PKIX(w.chains[ck], trusted, h), ck == "LI" || ck == "LIR"; got != want {
+			if got, want := c13PKIX(w.chains[ck], trusted, h), w.chains[ck].pkix; got != want {
 				t.Fatalf("c13 self-check: chain %s, root trusted, name %q: PKIX says %v, constructed as %v", ck, h, got, want)
 			}
 			if c13PKIX(w.chains[ck], none, h) {
@@ -3269,6 +3715,34 @@ func TestVerifC13Attempt(t *testing.T) {
 	for _, ck := range []string{"LI", "LIR"} {
 		for _, i := range []int{6, 8, 9} {
 			run(c13Att{zone: zoneOf(sets[i]...), ck: ck, modes: "TTT", pool: 't', base: 'd', hr: true})
+		}
+	}
+	// (2c) ordinary verification passes (the client trusts both roots: the state CheckConn is handed
+	// carries VerifiedChains) and the presented chain ALSO contains a stray CA certificate the leaf does
+	// not chain to. The RRset pins our intermediate (1), our root (2, 3), the foreign root (8), or holds
+	// a non-matching DANE-EE record next to the pin of our intermediate (10): a pin on the stray
+	// certificate matches a presented CA certificate and must not authenticate — the MX is refused;
+	// a pin on the CA that issued the leaf authenticates. The same with no CA trusted (second
+	// handshake, InsecureSkipVerify, no VerifiedChains) is block (1).
+	for _, ck := range []string{"G", "J", "M"} {
+		for _, i := range []int{1, 2, 3, 8, 10} {
+			run(c13Att{zone: zoneOf(sets[i]...), ck: ck, modes: "TTT", pool: 't', base: 'd', hr: true})
+		}
+		run(c13Att{zone: zoneOf(sets[8]...), ck: ck, modes: "HTT", pool: 't', base: 'd', hr: true})
+		run(c13Att{zone: zoneOf(sets[1]...), ck: ck, modes: "TTT", pool: 't', base: 'o', host: 2, hr: true})
+	}
+	for _, i := range []int{8, 2} {
+		run(c13Att{zone: zoneOf(sets[i]...), ck: "LIR", modes: "TTT", pool: 't', base: 'd', hr: true})
+	}
+	// (2d) the TLSA discovery crashes (resolver without servers; panicking log output where discovery
+	// reports its decision): nothing is known about the RRset — the MX is refused (temporarily),
+	// whether the connection is in plaintext, encrypted, or authenticated by X.509
+	for ci, ck := range []string{"LIR", "W", "G"} {
+		for mi, modes := range []string{"TTT", "NNN", "HTT"} {
+			for xi, crash := range []string{"E", "L"} {
+				k := ci + mi + xi
+				run(c13Att{zone: zoneOf(sets[[]int{1, 4, 0, 5}[k%4]]...), ck: ck, modes: modes, pool: "pt"[k%2], base: 'd', hr: true, crash: crash})
+			}
 		}
 	}
 	// (3) other handshake histories
